@@ -49,7 +49,7 @@ cfg('MC_LibraryListing_glob_unsorted_q.cfg', **dict(PAIR, glob='{TRUE}', variant
 cfg('MC_LibraryListing_mut_half_lane_q.cfg', **dict(LANE, variant='mut_half_lane'))
 cfg('MC_LibraryListing_mut_partial_return_q.cfg', **dict(LANE, variant='mut_partial_return'))
 cfg('MC_LibraryListing_mut_prepend_q.cfg', **dict(PAIR, glob='{FALSE}', variant='mut_prepend'))
-cfg('MC_LibraryListing_impl_q.cfg', **dict(NAME, variant='impl', verbose=B2))
+cfg('MC_LibraryListing_impl_q.cfg', **dict(NAME, variant='impl', verbose=B2, lib='repl3', maxfiles=1, slib=(0, 2), merges=(0, 2)))
 cfg('MC_LibraryListing_impl_asfound_q.cfg', **dict(NAME, variant='impl_asfound', verbose='{TRUE}', repl=(2,), lib='repl3', maxfiles=1, slib=(0, 2), merges=(0, 2)))
 # scenario generators (spec -> code)
 cfg('MC_LibraryListing_gen_pair.cfg', **dict(PAIR, schemes=['ill'], lanes=2, gen=True))
